@@ -195,6 +195,12 @@ class Registry:
             text = line
             if '\r' in text or '\t' in text:
                 self.problems.append(('REG.line', i, text, 'line contains a tab or carriage return'))
+            # the registry is read through a codecs stream reader, whose line iteration also breaks at these characters:
+            # what follows one of them is read as a line of its own
+            brk = [ch for ch in '\x0b\x0c\x1c\x1d\x1e\x85\u2028\u2029' if ch in text]
+            if brk:
+                self.problems.append(('REG.line', i, text, 'line contains U+%04X, at which numdb\'s reader starts a new line: the rest of the line is read as '
+                                      'another entry and the lines below it hang off that' % ord(brk[0])))
             subject = model.subject(line + '\n')
             m = getattr(model.line_re, model.how)(subject.rstrip('\n') if isinstance(subject, str) else line)
             if not m:
